@@ -59,8 +59,18 @@ def worker_check(P, tier, seed, which):
     r = rng(seed, "worker")
     n = 64 if tier == "quick" else 800
     cases = [scen(r, i) for i in range(n)]
+    rule = c.rule
+    # real time: a scenario that disagrees is re-run (alone, low parallelism) and reported only if it disagrees again
+    c = confirm_realtime(lambda cs_, procs: worker_judge(P, cs_, which, min(procs, 8)), cases)
+    c.rule = rule
+    return c
+
+
+def worker_judge(P, cases, which, procs):
+    from props.c02 import monitors_c02
+    c = Corr()
     try:
-        obs = run_parallel("worker", cases, "worker_" + P.pid)
+        obs = run_parallel("worker", cases, "worker_" + P.pid, procs=procs)
     except RuntimeError as e:
         c.errors.append(str(e))
         return c
